@@ -80,6 +80,10 @@ def check_limit_df(case, rec):
         if c['method'] == 'amp':
             pipeline.trusted_burst_mask(c, x)
         df = pipeline.analyse(c, x, return_samples=True)
+    if case.get('row_order') == 'by-feature':        # a table ranked by a feature (df.sort_values): rows no longer in time order
+        df = df.sort_values('volt_amp', kind='stable').reset_index(drop=True) if 'volt_amp' in df.columns else df
+    elif case.get('row_order') == 'reversed':
+        df = df.iloc[::-1].reset_index(drop=True)
     df.index = make_index(case['index'], len(df))
     fs = case['fs']
     center = ref.table_center(df)
@@ -159,7 +163,7 @@ def check_limit_df(case, rec):
             raise Violation('limit_df:cycle-outside-window-kept', 'cycle [%d,%d] window [%s,%s] samples' % (last0[i], next0[i], ks, ke))
     on_boundary = (ks is not None and ks in set(last0.tolist())) or (ke is not None and ke in set(next0.tolist()))
     rec.label('table:' + case['table']['kind'], 'center:' + center, 'start:%s' % ('none' if ks is None else case['start'][0]),
-              'stop:%s' % ('none' if ke is None else case['stop'][0]), 'reset:%s' % case['reset'], 'index:' + case['index'],
+              'stop:%s' % ('none' if ke is None else case['stop'][0]), 'reset:%s' % case['reset'], 'index:' + case['index'], 'rows:' + case.get('row_order', 'time'),
               'on-cycle-boundary' if on_boundary else 'off-boundary', 'rows-out:%s' % ('0' if not len(out) else ('all' if len(out) == len(keep) else 'some')),
               'exact' if (exact_s and exact_e) else 'inexact-k/fs')
     rec.nontrivial(ks is None or ke is None or center == 'trough' or on_boundary)
@@ -178,7 +182,8 @@ def strat_limit_df(draw, tier):
     lim = st.one_of(st.none(), st.tuples(st.sampled_from(['side', 'side', 'inside', 'before', 'after']), st.integers(0, 10000)).map(list))
     return {'table': table, 'fs': fs, 'start': draw(lim), 'stop': draw(lim), 'reset': draw(st.booleans()),
             'pass_none': draw(st.booleans()),
-            'index': draw(st.sampled_from(['range', 'range', 'offset', 'repeated', 'repeated', 'reversed']))}
+            'index': draw(st.sampled_from(['range', 'range', 'offset', 'repeated', 'repeated', 'reversed'])),
+            'row_order': draw(st.sampled_from(['time', 'time', 'time', 'by-feature', 'reversed']))}
 
 
 # ------------------------------------------------------------------------------------------------ limit_signal
@@ -298,6 +303,8 @@ def check_flatten(case, rec):
         lab = list(range(100, 100 + len(tables)))
     else:
         lab = ['L%s' % v for v in labels[:len(tables)]]
+    if case.get('group_labels'):              # genuine group labels repeat: conditions, hemispheres, group ids
+        lab = [lab[i % 2] for i in range(len(lab))]
     originals = [t.copy(deep=True) for t in tables]
     if case['shape'] == '1d':
         dfs = [t.copy(deep=True) for t in tables]
@@ -334,7 +341,7 @@ def check_flatten(case, rec):
                     raise Violation('flatten_dfs:values-or-order', 'column %s' % c)
     empties = sum(1 for t in originals if len(t) == 0)
     rec.label('shape:' + case['shape'], 'labels:' + case['label_container'], 'label-type:' + case['label_type'],
-              'has-empty-table' if empties else 'no-empty-table')
+              'has-empty-table' if empties else 'no-empty-table', 'labels-repeat' if case.get('group_labels') else 'labels-unique')
     rec.nontrivial(len(originals) >= 2 and (empties > 0 or case['shape'] == '2d'))
 
 
@@ -357,7 +364,7 @@ def strat_flatten(draw, tier):
     return {'shape': shape, 'n0': n0, 'tables': tables, 'labels': labels, 'method': draw(st.sampled_from(['cycles', 'amp'])),
             'label_type': draw(st.sampled_from(['str', 'str', 'int'])),
             'label_container': draw(st.sampled_from(['list', 'array'] + (['flat'] if shape == '2d' else []))),
-            'column_name': draw(st.sampled_from([None, None, 'Channel']))}
+            'column_name': draw(st.sampled_from([None, None, 'Channel'])), 'group_labels': draw(st.integers(0, 2)) == 0}
 
 
 PARTS = [
